@@ -386,6 +386,13 @@ VDeleteIndex(n) ==
 \* metadata actually stored by VAdd: memory-enabled indexes stamp _created_at
 StampMeta(ix, m) == IF CfgMem[ix.cfg] THEN [m EXCEPT !["_created_at"] = "T"] ELSE m
 
+\* Auto-link rule "alk": on insertion, a metadata field "k" naming a node creates the edge id -ALRel-> that node
+\* (engine.processAutoLinks -> VLink(index, id, fmt.Sprint(value), relation, "", 1.0, nil), journaled as GLINK)
+ALRel == CHOOSE r \in Rels : TRUE
+ALFires(n, ix, id, um) ==
+  /\ ix.al = "alk" /\ n = GName /\ "k" \in MKeys /\ id \in GNodes
+  /\ um["k"] # Nil /\ um["k"] \in GNodes /\ Rels # {}
+
 VAdd(n, id, vec, um) ==
   LET ix == mem.ix[n]
       m  == StampMeta(ix, MkMeta(um))
@@ -398,12 +405,18 @@ VAdd(n, id, vec, um) ==
           /\ UNCHANGED mem
           /\ IF Dev("journal_before_validate") THEN Journal(<<CAdd(n, id, vec, m)>>) ELSE UNCHANGED file
      ELSE /\ Len(ix.nodes) < MaxCtr
-          /\ SetIx(n, IxAdd(ix, id, vec, m))
-          /\ Journal(<<CAdd(n, id, vec, m)>>)
+          /\ IF ALFires(n, ix, id, um)
+             THEN LET ts == clock + 1
+                      g1 == LinkG(G(mem), id, um["k"], ALRel, Nil, "w1", Nil, ts) IN
+                  /\ mem' = [mem EXCEPT !.ix[n] = IxAdd(ix, id, vec, m), !.out = g1.out, !.in = g1.in]
+                  /\ Journal(<<CAdd(n, id, vec, m), CLink(id, um["k"], ALRel, Nil, "w1", Nil, ts)>>)
+             ELSE /\ SetIx(n, IxAdd(ix, id, vec, m))
+                  /\ Journal(<<CAdd(n, id, vec, m)>>)
           /\ Log(rec @@ [res |-> "ok"])
+  /\ clock' = IF Exists(n) /\ vec # BadVec /\ ~Live(ix, id) /\ ALFires(n, ix, id, um) THEN clock + 1 ELSE clock
   /\ dev' = IF Exists(n) /\ Live(ix, id) /\ Dev("journal_before_validate") THEN dev \cup {"journal_before_validate"} ELSE dev
   /\ delat' = IF Exists(n) /\ vec # BadVec /\ ~Live(ix, id) /\ GId(n, id) \in GNodes THEN [delat EXCEPT ![GId(n, id)] = 0] ELSE delat
-  /\ UNCHANGED <<snap, clock, dirty>>
+  /\ UNCHANGED <<snap, dirty>>
 
 \* VAddBatch of two items (ids may coincide, may already exist): all-or-nothing
 VAddBatch(n, id1, v1, id2, v2, um) ==
@@ -417,12 +430,23 @@ VAddBatch(n, id1, v1, id2, v2, um) ==
      ELSE IF bad
      THEN /\ Log(rec @@ [res |-> "err"]) /\ UNCHANGED <<mem, file>>
      ELSE /\ Len(ix.nodes) + 1 < MaxCtr
-          /\ SetIx(n, IxAdd(IxAdd(ix, id1, v1, m), id2, v2, m))
-          /\ Journal(<<CAdd(n, id1, v1, m), CAdd(n, id2, v2, m)>>)
+          /\ LET ix2 == IxAdd(IxAdd(ix, id1, v1, m), id2, v2, m)
+                 f1 == ALFires(n, ix, id1, um)
+                 f2 == ALFires(n, ix, id2, um)
+                 t1 == clock + 1
+                 t2 == IF f1 THEN clock + 2 ELSE clock + 1
+                 g1 == IF f1 THEN LinkG(G(mem), id1, um["k"], ALRel, Nil, "w1", Nil, t1) ELSE G(mem)
+                 g2 == IF f2 THEN LinkG(g1, id2, um["k"], ALRel, Nil, "w1", Nil, t2) ELSE g1 IN
+             /\ mem' = [mem EXCEPT !.ix[n] = ix2, !.out = g2.out, !.in = g2.in]
+             /\ Journal(<<CAdd(n, id1, v1, m), CAdd(n, id2, v2, m)>>
+                        \o (IF f1 THEN <<CLink(id1, um["k"], ALRel, Nil, "w1", Nil, t1)>> ELSE <<>>)
+                        \o (IF f2 THEN <<CLink(id2, um["k"], ALRel, Nil, "w1", Nil, t2)>> ELSE <<>>))
           /\ Log(rec @@ [res |-> "ok"])
+  /\ clock' = IF Exists(n) /\ ~bad
+              THEN clock + (IF ALFires(n, ix, id1, um) THEN 1 ELSE 0) + (IF ALFires(n, ix, id2, um) THEN 1 ELSE 0) ELSE clock
   /\ delat' = IF Exists(n) /\ ~bad
               THEN [x \in GNodes |-> IF x \in {GId(n, id1), GId(n, id2)} THEN 0 ELSE delat[x]] ELSE delat
-  /\ UNCHANGED <<snap, clock, dev, dirty>>
+  /\ UNCHANGED <<snap, dev, dirty>>
 
 VDelete(n, id) ==
   LET ix == mem.ix[n]
